@@ -186,8 +186,10 @@ def run_case(case):
                         f["scheme"] = scheme
                     res["failures"] += fl
             counters["cells_compared"] = len(exp_s) * len(vcols)
-            # partition columns
-            if scheme == "hive":
+            # partition columns (only when something was stored: a dataset without row groups has no paths to derive them from)
+            if not len(keyed):
+                pass
+            elif scheme == "hive":
                 for p in pcols:
                     if p not in got_s.columns:
                         res["failures"].append({"kind": "partition_column_missing", "column": p, "got_columns": [str(c) for c in got_s.columns]})
